@@ -112,6 +112,19 @@ func (c *c16) loadable(name string, depth int) bool {
 	return c.loadable(ref, depth+1)
 }
 
+// alwaysRendersOwnMarker: no version of the file(s) a name can resolve to was ever an extends-child
+// (whose marker sits in a block that is rendered only if the chain's root yields it - and the cached
+// version of any link of that chain may be an older one).
+func (c *c16) alwaysRendersOwnMarker(name string) bool {
+	for key, f := range c.past {
+		p := key[:strings.LastIndex(key, "#")]
+		if f.kind == 2 && (p == name || strings.HasPrefix(p, name+".")) {
+			return false
+		}
+	}
+	return true
+}
+
 func (c *c16) newSet(i int) {
 	sm := &setModel{execClean: map[*jet.Template]bool{}, succ: map[string]*jet.Template{}, failed: map[string]bool{}, mayCached: map[string]bool{}, parsedOnly: map[string]bool{}}
 	if i < len(c.sets) && c.sets[i] != nil {
@@ -356,6 +369,19 @@ func (c *c16) opGet(sm *setModel, name string, exec bool) {
 	}
 }
 
+// parseTimeTarget picks what an extends or import refers to: mostly /base, sometimes a template further
+// "downhill" (/a -> /b -> /d/e -> /base), which gives chains of three and four templates loaded by one
+// GetTemplate.
+func parseTimeTarget(t *sim.Tape, b string) string {
+	switch b {
+	case "/a":
+		return []string{"/base", "/base", "/b", "/d/e"}[t.Choose(4)]
+	case "/b":
+		return []string{"/base", "/base", "/d/e"}[t.Choose(3)]
+	}
+	return "/base"
+}
+
 // includeTarget picks a run-time include target "downhill" (/a -> /b -> /d/e),
 // so include chains cannot be cyclic.
 func includeTarget(t *sim.Tape, b string) (kind int, ref string) {
@@ -441,7 +467,7 @@ func (c *c16) opExec(sm *setModel, t *jet.Template, name string) {
 				if !strings.HasPrefix(ref, "/") {
 					ref = Normalize(Dir(m[1]) + "/" + ref)
 				}
-				if c.loadable(ref, 0) && !strings.Contains(buf.String()[len(m[0]):], "["+ref) {
+				if c.loadable(ref, 0) && c.alwaysRendersOwnMarker(ref) && !strings.Contains(buf.String()[len(m[0]):], "["+ref) {
 					c.env.Violate("retry", c.mode(sm)+":runtime-lookup-not-retried", "%s: the template refers to %s at run time (%s), the loader can serve it, but it was not rendered: %q\nhistory: %s", op, ref, []string{"", "include", "", "", "includeIfExists"}[top.kind], buf.String(), strings.Join(c.hist, " "))
 				}
 			}
@@ -592,7 +618,7 @@ func RunC16(env *sim.Env) {
 			continue // missing at first
 		}
 		kind := t.Choose(4)
-		ref := "/base"
+		ref := parseTimeTarget(t, b)
 		if kind == 1 {
 			kind, ref = includeTarget(t, b)
 		}
@@ -629,7 +655,7 @@ func RunC16(env *sim.Env) {
 			if b == "/base" {
 				kind = 0
 			}
-			ref := "/base"
+			ref := parseTimeTarget(t, b)
 			if kind == 1 {
 				kind, ref = includeTarget(t, b)
 			}
